@@ -399,10 +399,10 @@ def check_narrow(ctx, inst, target, source, value):
         return
     exits = [x for x in common.exit_sites(P, f)]
     limb = lambda k: P_(f, 0, ".0.0[%d]" % k)
-    need = {"eq(%s) is [True]" % ", ".join(sorted(["K:0", limb(2)])), "eq(%s) is [True]" % ", ".join(sorted(["K:0", limb(3)]))}
+    need = {"is_zero(%s) is [True]" % limb(2), "is_zero(%s) is [True]" % limb(3)}
     for (b, i, cls, v) in exits:
         cs = lemmas.cond_strings(ctx, common.control_conditions(P, f, b))
-        cs = {c for c in cs if c.startswith("eq(")}
+        cs = {c for c in cs if c.startswith(("eq(", "is_zero("))}
         if not need <= cs:
             inst.fail("C08.R4:narrow:%s:unguarded" % target, f.path, common.span_of_block_term(f, b),
                       "narrowing %s -> %s returns without both upper limbs having been checked to be zero (conditions: %s)" % (source.split("::")[-1], target, sorted(cs)))
